@@ -161,6 +161,9 @@ struct Runner {
     add("Scale", e.Scale({2, 1, 1})); add("Warp", e.Warp([](vec3& p) { p.x += 1; }));
     add("SetProps", e.SetProperties(2, [](double* o, vec3 p, const double*) { o[0] = p.x; o[1] = p.y; }));
     add("Normals", e.CalculateNormals(0)); add("Curvature", e.CalculateCurvature(0, 1));
+    add("NormalsThenProps1", e.CalculateNormals(0, 60).Translate({1, 0, 0}).SetProperties(1, [](double* o, vec3 p, const double*) { o[0] = p.x; }));
+    add("NormalsThenProps0", e.CalculateNormals(0).SetProperties(0, nullptr).Rotate(0, 0, 45));
+    add("NormalsThenBoolean", e.CalculateNormals(0, 30) - good);
     add("Refine", e.Refine(2)); add("RefineLen", e.RefineToLength(0.7)); add("RefineTol", e.RefineToTolerance(0.1));
     add("SmoothOut", e.SmoothOut()); add("SmoothNormals", e.CalculateNormals(0).SmoothByNormals(0));
     add("Simplify", e.Simplify(0.01)); add("SetTol", e.SetTolerance(0.01)); add("AsOriginal", e.AsOriginal());
@@ -177,6 +180,7 @@ struct Runner {
         else if (st != es) drift.push_back({{"op", kv.first}, {"in", ErrName(es)}, {"out", ErrName(st)}});
       } else if (st == Manifold::Error::NoError) {
         std::string why = Closed2Manifold(kv.second.GetMeshGL64());
+        if (why.empty()) why = Closed2Manifold(kv.second.GetMeshGL());   // the 32-bit export reads the same rows
         if (!why.empty()) fail("broken-noerror", {{"op", kv.first}, {"why", why}, {"ctor", tag}});
       } else if (!kv.second.IsEmpty())
         fail("nonempty-error", {{"op", kv.first}, {"status", ErrName(st)}, {"ctor", tag}});
